@@ -993,7 +993,8 @@ func genC14(g *genCtx) {
 	r := g.r
 	pool := docPool(r, nsProfile, g.scale(4, 5), g.scale(3, 4), g.scale(60, 200), 14)
 	maps := []map[string]string{nil, nil, {"p": "urn:p"}, {"p": "urn:p", "q": "urn:q"}, {"x": "urn:p"}, {"p": "urn:q"}, {}, {"q": "urn:p", "p": "urn:d"}, {"p": ""}}
-	qn := []string{"a", "b", "p:a", "q:a", "p:b", "x:a", "q:b", "*"}
+	// name tests of all three forms of XPath's NameTest: QName, '*', and NCName:'*'
+	qn := []string{"a", "b", "p:a", "q:a", "p:b", "x:a", "q:b", "*", "p:*", "q:*", "x:*"}
 	for i := 0; i < g.scale(25000, 250000); i++ {
 		d := pool[r.intn(len(pool))]
 		ns := maps[r.intn(len(maps))]
@@ -1007,7 +1008,7 @@ func genC14(g *genCtx) {
 				e = "//*/" + e
 			}
 		case 3:
-			e = "//" + r.pick(qn) + "/@" + r.pick([]string{"k", "p:k", "q:a", "a", "*", "x:k"})
+			e = "//" + r.pick(qn) + "/@" + r.pick([]string{"k", "p:k", "q:a", "a", "*", "x:k", "p:*", "q:*"})
 		case 4:
 			kind = "eval"
 			e = r.pick([]string{"name", "local-name", "namespace-uri"}) + "(" + r.pick([]string{"", ".", "//*", "//@*", "//p:a", "*", "@*", "//text()", "//zzz", "..", "//comment()"}) + ")"
